@@ -2,7 +2,8 @@
 """C14 — the dev database is never damaged.
 
 Workload: the real CLI with SQLite file dev databases. Every command that takes --dev-url (migrate diff /
-validate / lint, schema apply / diff / inspect) x {SQL schema files, migration directories, HCL} x a failing
+validate / lint, schema apply / diff / inspect) x {SQL schema files, migration directories, SQL schema
+directories (no atlas.sum), HCL} x a failing
 statement inserted at every position of the replayed source (syntax error, duplicate object, NOT NULL /
 UNIQUE / CHECK failure after successful DDL and DML, missing object, FK failure with ?_fk=1; explicit
 BEGIN / COMMIT / ROLLBACK / SAVEPOINT shapes: failing inside an open transaction, ending with an open
@@ -53,7 +54,7 @@ def slot_len(cmd, slot, stname):
     n = len(L.story(stname, ""))
     if slot == "a":
         return max(1, n // 2)
-    if slot == "b" and cmd != "diff-sql-synced":
+    if slot in ("b", "sdir") and cmd != "diff-sql-synced":
         return n + 1
     return n
 
@@ -98,7 +99,7 @@ def build_cases():
                     add(cmd, dev, stname, None)
                 ei += 1
     # ---- family 1b: variants of the replay mechanics (txmode none directive, foreign keys on, stale sum) ----
-    vcmds = ["validate", "lint-2", "diff-sql", "apply-dir", "inspect-dir", "sdiff-dir-hcl", "apply-sql", "sdiff-sql-sql"]
+    vcmds = ["validate", "lint-2", "diff-sql", "apply-dir", "inspect-dir", "sdiff-dir-hcl", "apply-sql", "sdiff-sql-sql", "inspect-sdir"]
     for ci, cmd in enumerate(vcmds):
         slots = L.CMDS[cmd]["slots"]
         for stname in (L.STORIES[:2] if not ctx.quick() else [L.STORIES[(ci + ctx.seed) % 2]]):
@@ -211,7 +212,8 @@ def materialise(c, d):
     info = {}
 
     def slot_stmts(slot):
-        base = {"dir": st, "a": st[:max(1, len(st) // 2)], "b": st if cmd == "diff-sql-synced" else st + [extra]}[slot]
+        base = {"dir": st, "a": st[:max(1, len(st) // 2)], "b": st if cmd == "diff-sql-synced" else st + [extra],
+                "sdir": st + [extra]}[slot]
         return L.with_failure(base, fail if fail and fail["slot"] == slot else None)
 
     os.makedirs(os.path.join(src, "mig"), exist_ok=True)
@@ -221,6 +223,10 @@ def materialise(c, d):
     files["a.sql"] = L.one_file(sa)
     files["b.sql"] = L.one_file(sb)
     write_files(src, files)
+    # SQL schema directory: .sql files only, no atlas.sum, not named "migrations"
+    ss, _ = slot_stmts("sdir")
+    sfiles, _ = L.cut_files(ss, c["cuts"])
+    write_files(os.path.join(src, "schemadir"), {"%02d_part.sql" % (i + 1): v for i, (_, v) in enumerate(sorted(sfiles.items()))})
     if cmd != "diff-emptydir":
         sd, failidx = slot_stmts("dir")
         if c.get("ckpt"):
